@@ -2672,6 +2672,13 @@ func (f *Fn) KnownNonNil(e ast.Expr) bool {
 				return true
 			case "time.After", "time.NewTimer", "time.NewTicker":
 				return true
+			case "errors.Join":
+				// nil only when every argument is
+				for _, a := range x.Args {
+					if f.KnownNonNil(a) {
+						return true
+					}
+				}
 			}
 		}
 	}
